@@ -391,11 +391,18 @@ def check_relaxation(rep, prog):
                                     return f_ if s.op == '!=' else ex.f_not(f_)
                     # less(c, dist[w])
                     if s.k == 'CXXOperatorCallExpr' and s.op == '()' and len(s.c) == 4:
-                        b = s.c[3].strip_all()
-                        if b.k == 'CallExpr' and b.callee and b.callee['g'] == 'boost::get' and len(b.args()) == 2 and ex.key(b.args()[1]) == wk:
+                        def label_read(e_):
+                            # get(map, w)  /  map[w]  /  a reference bound to one of them
+                            e_ = e_.strip_all()
+                            if e_.k == 'DeclRefExpr':
+                                e_ = ex.alias_of(fn, e_) or e_
+                            if e_.k == 'CallExpr' and e_.callee and e_.callee['g'] == 'boost::get' and len(e_.args()) == 2 and ex.key(e_.args()[1]) == wk:
+                                return True
+                            return e_.k == 'CXXOperatorCallExpr' and e_.op == '[]' and len(e_.c) == 3 and ex.key(e_.c[2]) == wk and \
+                                'property_map' in ((fn.prog.base_type(e_.c[1].strip_all().j.get('t')) or {}).get('canon') or '')
+                        if label_read(s.c[3]):
                             return ex.f_atom('lt')
-                        a = s.c[2].strip_all()
-                        if a.k == 'CallExpr' and a.callee and a.callee['g'] == 'boost::get' and len(a.args()) == 2 and ex.key(a.args()[1]) == wk:
+                        if label_read(s.c[2]):
                             return ex.f_atom('gt')
                     if s.k in ('BinaryOperator', 'CXXOperatorCallExpr') and s.op in ('==', '!='):
                         ops = s.c if s.k == 'BinaryOperator' else s.c[1:]
@@ -662,6 +669,10 @@ def check_pruning(rep, prog):
                 return 'limit'
             if v is not None and names.get(v) in ('best_path',):
                 return 'best'
+            if v is not None and (names.get(v) in ('distance_inf', 'inf') or (
+                    ex.unique_def(fn, v) is not None and any(x.k in ex.CALL_KINDS and x.callee and x.callee['name'] in ('max', 'infinity')
+                                                             for x in [ex.unique_def(fn, v).strip_all()] + list(ex.unique_def(fn, v).walk())))):
+                return 'inf'
             if v is not None and names.get(v) in ('d_u',):
                 return 'd_u'
             if v is not None and names.get(v) in ('c',):
@@ -701,6 +712,9 @@ def check_pruning(rep, prog):
                 return ex.f_atom(('empty', ex.key(s.object_arg())))
             lf_ = less_formula(fn, leaf, quantities)
             if lf_ is not None:
+                # "a meeting point has been recorded" spelled through the sentinel: best_path starts at infinity and only ever decreases
+                if set(ex.f_atoms(lf_)) == {('lt', 'best', 'inf')}:
+                    return ex.f_atom('set') if ex.f_eval(lf_, {('lt', 'best', 'inf'): True}) else ex.f_not(ex.f_atom('set'))
                 return lf_
             return None
 
@@ -786,6 +800,10 @@ def check_pruning(rep, prog):
                 what = 'the meeting point is discarded only when none was found or it is not lighter than the weight limit'
                 lt = ('lt', 'best', 'limit')
                 rest = [x for x in atoms if x not in (lt, 'set', 'use_limit')]
+                if 'set' not in atoms and [x for x in rest if isinstance(x, tuple) and x and x[0] == 'opaque']:
+                    on_ = fn.nodes.get([x for x in rest if isinstance(x, tuple) and x[0] == 'opaque'][0][1])
+                    rep.undecided('R02i', r, fn, what, 'the "a meeting point was found" test is outside the idiom table (`%s`)' % (on_.text(40) if on_ is not None else '?'))
+                    continue
                 viol = False
                 for vals in itertools.product((False, True), repeat=len(rest)):
                     e = dict(zip(rest, vals))
